@@ -77,6 +77,8 @@ func declaredDPTTypes() ([]string, error) {
 	return out, nil
 }
 
+var c19Aliases int
+
 func first(l []string) string {
 	if len(l) == 0 {
 		return ""
@@ -134,6 +136,26 @@ func c19Static() []*common.Fail {
 		fails = append(fails, common.Failf("listing-shared", "after a caller overwrote the slice ListSupportedTypes() had returned, the next call lists %d names (first %q) instead of the %d registered ones (first %q): the listing aliases registry state",
 			len(after), first(after), len(before), first(before)))
 	}
+	// numeric aliases of registered names: (main-k).(sub + k*M) for the moduli a packed or narrowed key would use.
+	// Such a name is well-formed and spelled canonically, and it is not registered (unless the listing says so)
+	nAlias := 0
+	for n := range seen {
+		var main, sub int
+		if _, err := fmt.Sscanf(n, "%d.%d", &main, &sub); err != nil {
+			continue
+		}
+		for _, m := range []int{100, 256, 1000, 4096, 10000, 65536, 100000} {
+			for k := 1; k <= 6 && main-k >= 0; k++ {
+				alias := fmt.Sprintf("%d.%03d", main-k, sub+k*m)
+				nAlias++
+				if f := c19Lookup(alias); f != nil && len(fails) < 20 {
+					f.Detail += fmt.Sprintf(" [numeric alias of the registered name %q: main-%d, sub+%d*%d]", n, k, k, m)
+					fails = append(fails, f)
+				}
+			}
+		}
+	}
+	c19Aliases = nAlias
 	decl, err := declaredDPTTypes()
 	if err != nil {
 		fails = append(fails, common.Failf("source-unreadable", "cannot parse the package source: %v", err))
@@ -553,6 +575,7 @@ func TestC19(t *testing.T) {
 		rec.NonTrivialEnum(int64(len(names) + len(decl)))
 		rec.ClassN("static-registered-names", int64(len(names)))
 		rec.ClassN("static-declared-types", int64(len(decl)))
+		rec.ClassN("static-numeric-aliases", int64(c19Aliases))
 		rec.Exhaustive(fmt.Sprintf("all %d registered names and all %d exported DPT_* type declarations of the package source", len(names), len(decl)))
 		for _, f := range fails {
 			common.Report(t, rec, f, c19Plan{Mode: "static"})
